@@ -7,6 +7,7 @@ import (
 	"strings"
 
 	"github.com/libsv/go-bk/base58"
+	"github.com/libsv/go-bk/bec"
 	"github.com/libsv/go-bk/bip32"
 	"github.com/libsv/go-bk/bip39"
 	"github.com/libsv/go-bk/crypto"
@@ -167,6 +168,7 @@ func genC04(e *emitter, r *rng, thorough bool) {
 			raw[4] = 253
 			copy(raw[78:], crypto.Sha256d(raw[:78])[:4])
 			e.emit("depth255", xkLine("str:"+hx([]byte(base58.Encode(raw))), []string{"c0:1", "c1:2", "c2:3", "n2", "c4:0",
+				"p0:" + hx([]byte("1/2")), "d0:" + hx([]byte("0/1")), "p1:" + hx([]byte("7")), // paths that END exactly at depth 255
 				"p0:" + hx([]byte("1/2/3")), "p4:" + hx([]byte("0")), "d4:" + hx([]byte("0/1")), "p2:" + hx([]byte("5'")), "d1:" + hx([]byte("1/1"))}))
 		}
 	}
@@ -229,6 +231,33 @@ func genC08(e *emitter, r *rng, thorough bool) {
 			}
 			kd := append([]byte{2}, pad32(xv.Bytes())...)
 			e.emit("parse.pubx", xkLine("str:"+hx([]byte(serXKey(verPub, 1, fp, 5, chain, kd))), []string{"c0:1", "n0"}))
+		}
+	}
+	// non-canonical X = x + P for every on-curve x below 2^32 + 977 - 1 that the rare-point classes provide (a range check
+	// done on machine words can let part of the window [P, 2^256) through): import must fail
+	for _, p := range rarePoints(r, 2) {
+		if p.x.BitLen() <= 33 {
+			xa := new(big.Int).Add(p.x, curveP)
+			if xa.BitLen() <= 256 {
+				for _, pre := range []byte{2, 3} {
+					kd := append([]byte{pre}, pad32(xa.Bytes())...)
+					e.emit("parse.pubx-alias", xkLine("str:"+hx([]byte(serXKey(verPub, 1, fp, 5, chain, kd))), []string{"c0:1", "n0"}))
+				}
+			}
+		}
+	}
+	for _, off := range []int64{977, 978, 980, 1 << 20, 1<<32 - 60, 1<<32 + 976} {
+		for d := int64(0); d < 40; d++ { // the next on-curve x at or after the offset
+			x := big.NewInt(off + d)
+			if _, err := bec.ParsePubKey(append([]byte{2}, pad32(x.Bytes())...), bec.S256()); err == nil {
+				xa := new(big.Int).Add(x, curveP)
+				if xa.BitLen() <= 256 {
+					kd := append([]byte{2}, pad32(xa.Bytes())...)
+					e.emit("parse.pubx-alias", xkLine("str:"+hx([]byte(serXKey(verPub, 1, fp, 5, chain, kd))), []string{"c0:1"}))
+					e.emit("parse.pubx-alias.raw", "parsepub "+hx(kd))
+				}
+				break
+			}
 		}
 	}
 	// public keys whose X puts the field code into rare representations (see rarePoints): import, derive, neuter
